@@ -190,7 +190,8 @@ class Monitor(object):
             self.rec('C12' if sim.exc == 1 else 'C11',
                      'exception escaped %s of node %d: %s%s' % (k, nid, getattr(sim, 'exc_repr', sim.exc),
                                                                 ' (its log is empty)' if empty else ''),
-                     finding='KF-C07-1' if (empty and 'kf_c07_1' in self.trigger) else None)
+                     finding=('KF-C07-1' if (empty and 'kf_c07_1' in self.trigger) else
+                              'KF-C08-1' if (empty and any(k.startswith('kf_c08_1') for k in self.trigger)) else None))
         if k == 'deliver':
             self.heard.setdefault(ev[2], {})[ev[1]] = ev[3]
         self.check_c06_c07(rec, sim, ev, nid, o)
@@ -548,6 +549,9 @@ class Monitor(object):
             if ev[0] == 'tick':
                 pend.discard(nid)
             base = log[0][1] if log else 0
+            if ev[0] == 'restart':
+                # before the dump is loaded (first tick): what the dump file covers is not owed by the journal
+                base = max(base, self.dump_position(rec, sim, nid) + 1)
             lost = [i for i, t in sorted(ack.items()) if i >= base and (self.entry_at(log, i) is None or self.entry_at(log, i)[2] != t)]
             if lost:
                 last_kill = [x for x in self.kill_infos if x['node'] == nid]
@@ -561,6 +565,17 @@ class Monitor(object):
             for i in [i for i in ack if i > (log[-1][1] if log else 0)]:
                 del ack[i]
 
+
+    def dump_position(self, rec, sim, nid):
+        import os, gzip, pickle
+        if rec.cfg.get('dump') != 'file' or sim.workdir is None or rec.cfg.get('custom'):
+            return 0
+        try:
+            with open(os.path.join(sim.workdir, 'dump_%d' % nid), 'rb') as f:
+                with gzip.GzipFile(fileobj=f) as gz:
+                    return pickle.load(gz)[1][1]
+        except Exception:
+            return 0
 
     def check_dump_file(self, rec, sim, nid):
         import os, gzip, pickle
